@@ -12,6 +12,7 @@ package main
 import (
 	"strings"
 	"sync"
+	"sync/atomic"
 	"time"
 
 	"github.com/tinode/chat/server/auth"
@@ -78,6 +79,9 @@ type Hub struct {
 
 	// Channel for suspending/resuming users, buffered 128.
 	userStatus chan *userStatusReq
+
+	// Incremented before every pass which applies a changed account state to the loaded topics.
+	userStateSeq int32
 
 	// Cluster request to rehash topics, unbuffered
 	rehash chan bool
@@ -363,6 +367,9 @@ func (h *Hub) run() {
 // * group topics where the given user is the owner.
 // 'me' and fnd' are ignored here because they are direcly tied to the user object.
 func (h *Hub) topicsStateForUser(uid types.Uid, suspended bool) {
+	// Topics which are being loaded right now cannot be matched yet: tell topicInit to look again.
+	atomic.AddInt32(&h.userStateSeq, 1)
+
 	h.topics.Range(func(name any, t any) bool {
 		topic := t.(*Topic)
 		if topic.cat == types.TopicCatMe || topic.cat == types.TopicCatFnd {
